@@ -852,12 +852,30 @@ impl World {
         let mut viols = vec![];
         let mut tags: Vec<&'static str> = vec![];
         let kind = t[2];
+        if kind == "grid" {
+            // every (instruction, slot, variant) combination on this state: look-alike and the five forgeries
+            let mut all = XHopOut { line: "rejected".to_string(), viols: vec![], tags: vec!["sub_grid"] };
+            for kd in ["swap", "liq", "dec"] {
+                for slot in 0..15 {
+                    for forge in 0..6 {
+                        let sl = slot.to_string();
+                        let fg = forge.to_string();
+                        let o = self.x_sub(&[t[0], t[1], kd, &sl, t[4], &fg]);
+                        if o.line == "ACCEPTED" {
+                            all.line = "ACCEPTED".to_string();
+                        }
+                        all.viols.extend(o.viols);
+                    }
+                }
+            }
+            return all;
+        }
         let slot: usize = t[3].parse().unwrap();
         let id: u32 = t[4].parse().unwrap();
         let funds = u64::MAX / 4;
         let mut base = crate::hist_oracle::clone_world(self);
         let pos0 = self.pos(id);
-        if kind == "liq" {
+        if kind != "swap" {
             match &pos0 {
                 Some(p) => {
                     let (ls, us) = (base.array_start_for(p.tick_lower_index), base.array_start_for(p.tick_upper_index));
@@ -940,7 +958,13 @@ impl World {
                 tick_array_upper: ta_u,
             };
             let m: Vec<Meta> = acc.to_account_metas(None).iter().map(Meta::from).collect();
-            let d = ::whirlpool::instruction::IncreaseLiquidityV2 { liquidity_amount: 1000, token_max_a: u64::MAX, token_max_b: u64::MAX, remaining_accounts_info: None }.data();
+            let d = if kind == "dec" {
+                // a withdrawal: the tokens are moved by the pool's own signature, so the position authority is the only gate
+                let l = p.liquidity.min(1000);
+                ::whirlpool::instruction::DecreaseLiquidityV2 { liquidity_amount: l, token_min_a: 0, token_min_b: 0, remaining_accounts_info: None }.data()
+            } else {
+                ::whirlpool::instruction::IncreaseLiquidityV2 { liquidity_amount: 1000, token_max_a: u64::MAX, token_max_b: u64::MAX, remaining_accounts_info: None }.data()
+            };
             let roles = vec![
                 (fx.pool, other.pool),
                 (position, o_position),
@@ -969,23 +993,61 @@ impl World {
             return XHopOut { line: "skip NoSuchSlot".to_string(), viols, tags: vec!["sub_no_slot"] };
         }
         let orig = metas[slot].key;
+        let forge_req = t.get(5).map_or(false, |x| x != &"0");
         let subst = match roles.iter().find(|(a, _)| *a == orig) {
             Some((_, b)) => *b,
+            None if forge_req => orig,
             None => return XHopOut { line: "skip NoLookAlike".to_string(), viols, tags: vec!["sub_no_lookalike"] },
         };
         // a look-alike must be a real account of the same kind (an array that does not exist in the other pool is
         // just an unrelated empty account, which the tick-array builder legitimately ignores)
-        if (fx.bank.get(&orig).owner == ::whirlpool::ID || roles.iter().position(|(a, _)| *a == orig).map_or(false, |i| kind == "swap" && (7..=10).contains(&i))) && fx.bank.get(&subst).owner != ::whirlpool::ID {
+        if !forge_req && (fx.bank.get(&orig).owner == ::whirlpool::ID || roles.iter().position(|(a, _)| *a == orig).map_or(false, |i| kind == "swap" && (7..=10).contains(&i))) && fx.bank.get(&subst).owner != ::whirlpool::ID {
             return XHopOut { line: "skip NoLookAlike".to_string(), viols, tags: vec!["sub_no_lookalike"] };
         }
         let mut m2 = metas.clone();
         // a duplicated key (token program a == b) is substituted in this slot only
         m2[slot].key = subst;
+        // forged variants (5th argument > 0): a byte-identical copy of the ORIGINAL account at another address,
+        // owned by a program that is not the expected one (random id; an id ending in the Token-2022 / Token
+        // program's last byte; the whirlpool program; the system program).  For the position token account the
+        // copy names the stranger as holder and the stranger signs as position authority.
+        let forge: u32 = t.get(5).and_then(|x| x.parse().ok()).unwrap_or(0);
+        let mut subst = subst;
+        if forge > 0 {
+            let o = fx.bank.get(&orig);
+            // the trader's own token accounts are validated by the token program only when tokens actually move
+            // (a zero-amount side makes no transfer), so a forged copy there says nothing about the whirlpool program
+            if o.executable || o.owner == crate::svm::system_id() || metas[slot].signer || orig == fx.trader_a || orig == fx.trader_b {
+                return XHopOut { line: "skip NoForgery".to_string(), viols, tags: vec!["sub_no_forgery"] };
+            }
+            let mut fake = [0x71u8; 32];
+            fake[0] = slot as u8;
+            let fake_owner = match forge {
+                1 => anchor_lang::prelude::Pubkey::new_from_array(fake),
+                2 => { fake[31] = 0xfc; anchor_lang::prelude::Pubkey::new_from_array(fake) }
+                3 => { fake[31] = 0xa9; anchor_lang::prelude::Pubkey::new_from_array(fake) }
+                4 => if o.owner == ::whirlpool::ID { anchor_spl::token::ID } else { ::whirlpool::ID },
+                _ => crate::svm::system_id(),
+            };
+            let forged = k(0x73, slot as u8);
+            let mut data = o.data.clone();
+            if kind != "swap" && slot == 6 && data.len() >= 64 {
+                data[32..64].copy_from_slice(stranger.as_ref());
+                m2[4].key = stranger;
+            }
+            fx.bank.set(forged, fake_owner, o.lamports, data);
+            m2[slot].key = forged;
+            subst = forged;
+            tags.push("sub_forged");
+        }
         let bank0 = fx.bank.clone();
         let (res, out) = fx.bank.execute(&m2, &data);
         let line = match res {
             Ok(()) => {
-                viols.push(format!("C15 the {} instruction accepted a look-alike account in slot {} ({} instead of {})", kind, slot, subst, orig));
+                if forge > 0 && kind != "swap" && slot == 6 {
+                    viols.push(format!("C04 the {} instruction accepted a stranger's signature with a forged position token account owned by another program (variant {})", kind, forge));
+                }
+                viols.push(format!("C15 the {} instruction accepted a {} account in slot {} ({} instead of {})", kind, if forge > 0 { "forged" } else { "look-alike" }, slot, subst, orig));
                 "ACCEPTED".to_string()
             }
             Err(e) => {
